@@ -61,6 +61,16 @@ class Probe:
         Inverter._map_response = staticmethod(self.orig_map)
 
 
+def _known():
+    from ..findings import Report
+    global _KNOWN
+    try:
+        return _KNOWN
+    except NameError:
+        _KNOWN = set(Report('C14').known)
+        return _KNOWN
+
+
 def run_config(cfg, transport='udp'):
     r = make_rig(cfg, transport)
     inv = r.inv
@@ -68,6 +78,22 @@ def run_config(cfg, transport='udp'):
     di = r.call(inv.read_device_info)
     if di[0] != 'ok':
         return [], 0, ('device-info', di[0])
+    red = cfg.get('redetect')
+    if red:
+        # the model is detected a second time on the same object: the inverter does not answer (detection fails), answers
+        # from the k-th request on only, or answers as before - with a poll before it or not
+        if red.startswith('poll+'):
+            r.call(inv.read_runtime_data)
+        if red.endswith('silent'):
+            r.dev.silent = True
+            r.call(inv.read_device_info)
+            r.dev.silent = False
+        elif red.endswith('lost-first'):
+            r.dev.drop_at = {len(r.dev.log)}
+            r.call(inv.read_device_info)
+            r.dev.drop_at = set()
+        else:
+            r.call(inv.read_device_info)
     with Probe() as p:
         outs = [r.call(inv.read_runtime_data)[0] for _ in range(2)]
     for sid, pos, size, got, win in p.short:
@@ -94,6 +120,9 @@ def job(cfgs):
         states.add(h((cfg['family'], sorted(classes_of(serial_for(cfg['tag']))), cfg['power'], cfg['refused'],
                       cfg['battery_mode'], oc)))
         for key, cause in vio:
+            if cfg.get('redetect') and ('C14', key) not in _known():
+                # (a recorded finding is identified by its sensor and call site, whatever the history)
+                key += '/after-second-detection:' + cfg['redetect']
             out.setdefault(key, []).append(dict(key=key, clause=key.split('/')[0],
                                                 replay=dict(cfg=cfg, transport=transport), detail=dict(cause=cause)))
     res = []
@@ -161,6 +190,9 @@ def run(tier, seed, rep):
     for mode in ('bytecount', 'zero', 'echo6', 'plus7'):
         cases += [(dict(c, mbap_length=mode), 'tcp') for i, c in enumerate(et_configs('quick', seed)) if i % 64 == 1]
         cases += [(dict(c, mbap_length=mode), 'tcp') for i, c in enumerate(dt_configs('quick', seed)) if i % 8 == 0]
+    for red in ('silent', 'poll+silent', 'lost-first', 'poll+again'):
+        cases += [(dict(c, redetect=red), 'udp') for i, c in enumerate(et_configs('quick', seed)) if i % 24 == 5]
+        cases += [(dict(c, redetect=red), 'udp') for i, c in enumerate(dt_configs('quick', seed)) if i % 8 == 3]
     k = 64
     total = reads = 0
     states = set()
